@@ -51,7 +51,14 @@ RULE = ("instructions: for each of the 36 bound instructions (System 9, Token 24
         "signers, keys random / all-zero / all-0xFF / aliased; then random fill. images: valid packed Mint / Account images "
         "(all COption present/absent combinations, all states, u64 extremes) and every single-field perturbation of them "
         "(COption tags 2, 256, 0x01000001, 0xFFFFFFFF; state / is_initialized bytes 0..3 and 255; is_native variants; every "
-        "single byte replaced by 3 values; lengths 0, LEN-1, LEN+1; foreign owner; writable or not) plus random images. "
+        "single byte replaced by 3 values; lengths 0, LEN-1, LEN+1; foreign owner; writable or not) plus random images; every "
+        "combination of Some / None with zero payload / None with STALE non-zero payload for each COption field "
+        "(mint_authority, freeze_authority, delegate, is_native, close_authority), the stale key also aliasing another key of "
+        "the image. On every image the reference accepts (token-program owner) validate_mint / validate_token is probed: it "
+        "must accept the expectations the reference reads, and reject every expectation the reference's reading does not "
+        "support (authority / freeze authority = the stale bytes behind a None tag, one bit flipped, unrelated / zero / "
+        "other-slot keys, decimals +-1, one wrong component among right ones; token: owner / mint one bit flipped, = delegate "
+        "/ close-authority bytes incl. stale ones, swapped). "
         "non-trivial = an instruction case on which framework and reference outputs were actually compared (reference "
         "builder succeeded, arguments inside the binding's argument space), or an image that at least one side accepts; "
         "distinct = distinct integer case vectors")
@@ -94,9 +101,20 @@ def le(n, w):
     return [(n >> (8 * i)) & 255 for i in range(w)]
 
 
+class Stale(object):
+    """a COption / PodOption field with tag None and these (stale, normally non-zero) payload bytes behind it: what the
+    reference packer leaves when an authority / delegate is cleared (it writes the tag and leaves the payload alone)"""
+
+    def __init__(self, body):
+        self.body = list(body)
+
+
 def pack_coption(val, body_len):
     if val is None:
         return [0, 0, 0, 0] + [0] * body_len
+    if isinstance(val, Stale):
+        assert len(val.body) == body_len
+        return [0, 0, 0, 0] + val.body
     return [1, 0, 0, 0] + list(val)
 
 
@@ -105,8 +123,12 @@ def pack_mint(ma, supply, dec, init, fa):
 
 
 def pack_token(mint, owner, amount, delegate, state, native, damount, close):
+    if isinstance(native, Stale):
+        nat = native
+    else:
+        nat = None if native is None else le(native, 8)
     return (list(mint) + list(owner) + le(amount, 8) + pack_coption(delegate, 32) + [state]
-            + pack_coption(None if native is None else le(native, 8), 8) + le(damount, 8) + pack_coption(close, 32))
+            + pack_coption(nat, 8) + le(damount, 8) + pack_coption(close, 32))
 
 
 TAGS = [[0, 0, 0, 0], [1, 0, 0, 0], [2, 0, 0, 0], [0, 1, 0, 0], [1, 0, 0, 1], [255, 255, 255, 255], [0, 0, 0, 1]]
@@ -207,6 +229,32 @@ def gen_cases(rng, tier):
             for dele in (None, 1):
                 bases_t.append(pack_token(rng.bytes(32), rng.bytes(32), rng.choice(U64X), rng.bytes(32) if dele else None, st,
                                           native, rng.choice(U64X), okey()))
+    # tag None with STALE non-zero payload bytes, for every COption field and every combination of them (0 = Some,
+    # 1 = None + stale bytes, 2 = None + zero bytes); the stale key also equal to another key of the image
+    for ma in (0, 1, 2):
+        for fa in (0, 1, 2):
+            k1, k2 = rng.bytes(32), rng.bytes(32)
+            for same in (0, 1):
+                if same:
+                    k2 = list(k1)
+                f = lambda m, k: k if m == 0 else (Stale(k) if m == 1 else None)  # noqa: E731
+                bases_m.append(pack_mint(f(ma, k1), rng.choice(U64X), rng.choice(U8X), 1, f(fa, k2)))
+    for dele in (0, 1, 2):
+        for native in (0, 1, 2):
+            for close in (0, 1, 2):
+                mint, owner, k1, k2 = rng.bytes(32), rng.bytes(32), rng.bytes(32), rng.bytes(32)
+                alias = rng.below(4)                    # stale / live delegate or close key equal to the owner or the mint
+                if alias == 1:
+                    k1 = list(owner)
+                elif alias == 2:
+                    k2 = list(owner)
+                elif alias == 3:
+                    k1, k2 = list(mint), list(mint)
+                f = lambda m, k: k if m == 0 else (Stale(k) if m == 1 else None)  # noqa: E731
+                nv = rng.choice([1, 2 ** 64 - 1, rng.next()])
+                nat = nv if native == 0 else (Stale(le(nv, 8)) if native == 1 else None)
+                bases_t.append(pack_token(mint, owner, rng.choice(U64X), f(dele, k1), rng.choice([1, 2]), nat,
+                                          rng.choice(U64X), f(close, k2)))
     mult = 1 if tier == "quick" else 12
 
     def images(kind, bases, tag_offs, flag_off, ln):
@@ -246,14 +294,19 @@ def gen_cases(rng, tier):
     images(1, bases_m, MINT_TAG_OFFS, 45, 82)
     images(2, bases_t, TOKEN_TAG_OFFS, 108, 165)
     # top up with valid random images and their single-field perturbations
+    def skey():
+        """Some(key) / None with zero payload / None with stale payload"""
+        r = rng.below(3)
+        return rng.bytes(32) if r == 0 else (None if r == 1 else Stale(rng.bytes(32)))
+
     target_img = 20000 if tier == "quick" else 250000
     while n[0] - n_ix < target_img:
         if rng.chance(1, 2):
-            b = pack_mint(okey(), rng.next(), rng.below(256), rng.weighted([(1, 5), (0, 1)]), okey())
+            b = pack_mint(skey(), rng.next(), rng.below(256), rng.weighted([(1, 5), (0, 1)]), skey())
             kind, offs, fo = 1, MINT_TAG_OFFS, 45
         else:
-            b = pack_token(rng.bytes(32), rng.bytes(32), rng.next(), okey(), rng.weighted([(1, 4), (2, 2), (0, 1)]),
-                           rng.choice([None, 0, rng.next()]), rng.next(), okey())
+            b = pack_token(rng.bytes(32), rng.bytes(32), rng.next(), skey(), rng.weighted([(1, 4), (2, 2), (0, 1)]),
+                           rng.choice([None, 0, rng.next(), Stale(rng.bytes(8))]), rng.next(), skey())
             kind, offs, fo = 2, TOKEN_TAG_OFFS, 108
         add(img_case(kind, 1, rng.below(2), b))
         d = list(b)
@@ -389,16 +442,49 @@ def parse_sf_image(kind, o):
         i += 2
     res["fields"] = fields
     res["data"] = 0 if o[i] == 0 else ("err", o[i + 1])
-    if 7777 in o[i:]:
-        j = i + o[i:].index(7777)
-        res["vm"] = o[j + 1:j + 3]
+    i += 1 if o[i] == 0 else 2
+    if i < len(o):                           # the probe section: 7777, the two original values, one value per probe group
+        if o[i] != 7777 or len(o) - i != 3 + PROBE_GROUPS[kind]:
+            raise IndexError("malformed probe section")
+        res["vm"] = o[i + 1:i + 3]
+        res["groups"] = o[i + 3:]
     return res
 
 
-def strip_probe(o):
-    """the framework-side observation without the validate_mint probes (which the Coq model does not describe)"""
-    if isinstance(o, list) and len(o) >= 3 and o[-3] == 7777:
-        return o[:-3]
+# probe groups appended after the two original probe values (harness MINT_GROUPS / TOKEN_GROUPS); value 1 = every probe of
+# the group behaved as required, 2 = not applicable to this image, 100 + i = probe i of the group did not
+MINT_GROUP_WHAT = [
+    "validate_mint accepts as mint authority the stale key bytes behind a None tag (the reference reports no mint authority)",
+    "validate_mint accepts a mint authority that differs in one bit from the key at the mint_authority slot",
+    "validate_mint accepts a mint authority the reference does not report (unrelated key / zero key / the freeze-authority bytes)",
+    "validate_mint accepts wrong decimals",
+    "validate_mint accepts as freeze authority the stale key bytes behind a None tag (the reference reports no freeze authority)",
+    "validate_mint accepts a freeze authority the reference does not report (one bit flipped / unrelated key / the mint-authority bytes)",
+    "validate_mint accepts an expectation with exactly one wrong component (authority / freeze authority) among right ones",
+    "validate_mint rejects a single right expectation (decimals / authority / freeze authority alone) or the empty expectation",
+]
+TOKEN_GROUP_WHAT = [
+    "validate_token accepts an owner that differs in one bit from the owner the reference reads",
+    "validate_token accepts a mint that differs in one bit from the mint the reference reads",
+    "validate_token accepts an owner the reference does not report (delegate / close-authority bytes, also stale ones behind a "
+    "None tag; the mint key; zero / unrelated key)",
+    "validate_token accepts a mint the reference does not report (delegate / close-authority bytes, also stale ones behind a "
+    "None tag; the owner key; zero / unrelated key)",
+    "validate_token accepts an expectation with one wrong component next to a right one (or mint and owner swapped)",
+    "validate_token rejects a single right expectation (mint / owner alone) or the empty expectation",
+]
+PROBE_GROUPS = {1: len(MINT_GROUP_WHAT), 2: len(TOKEN_GROUP_WHAT)}
+
+
+def strip_probe(o, kind=None):
+    """the framework-side observation without the validate_mint / validate_token probes (which the Coq model does not
+    describe): marker 7777, the two original probe values, one value per probe group of this kind of image"""
+    if not isinstance(o, list):
+        return o
+    for k in ([kind] if kind in PROBE_GROUPS else sorted(PROBE_GROUPS)):
+        ln = 3 + PROBE_GROUPS[k]
+        if len(o) >= ln and o[-ln] == 7777:
+            return o[:-ln]
     return o
 
 
@@ -496,6 +582,14 @@ def predicate(c, s, r):
                     return "token Account image accepted by the reference: validate_token with the mint / owner the reference reads is rejected"
                 if vm[1] != 1:
                     return "token Account image: validate_token accepts another owner / another mint"
+            if c[1] == 1:
+                if not vm or len(vm) != 2 or vm[0] == 9:
+                    return "%s image accepted by the reference: no validate_%s probes in the observation" % (
+                        what, "mint" if kind == 1 else "token")
+                names = MINT_GROUP_WHAT if kind == 1 else TOKEN_GROUP_WHAT
+                for gi, v in enumerate(sv.get("groups") or [None] * len(names)):
+                    if v not in (1, 2):
+                        return "%s image: %s (probe group %d, value %s)" % (what, names[gi], gi, v)
         return None
     if kind == 3:
         return None if s == r else "associated token address differs from the reference derivation"
@@ -595,10 +689,31 @@ def build_harness():
     lock_dst = os.path.join(d, "Cargo.lock")
     if not os.path.exists(lock_dst):
         shutil.copyfile(os.path.join(C.REPO, "Cargo.lock"), lock_dst)
-    rc, out = C.sh(["cargo", "build", "--offline", "--bin", BIN], cwd=d, timeout=2400)
+    # the executable is the one cargo reports for THIS build of THIS package (the target directory is shared with the
+    # other harness crates, and - when VERIF_REPO points elsewhere - with the copy of this crate): no guessed path
+    rc, out = C.sh(["cargo", "build", "--offline", "--bin", BIN, "--message-format=json-render-diagnostics"], cwd=d, timeout=2400)
+    exe, text = None, []
+    manifest = os.path.realpath(os.path.join(d, "Cargo.toml"))
+    for line in out.split("\n"):
+        if not line.startswith("{"):
+            text.append(line)
+            continue
+        try:
+            m = json.loads(line)
+        except ValueError:
+            text.append(line)
+            continue
+        tgt = m.get("target") or {}
+        if (m.get("reason") == "compiler-artifact" and m.get("executable") and tgt.get("name") == BIN
+                and "bin" in (tgt.get("kind") or []) and os.path.realpath(m.get("manifest_path", "")) == manifest):
+            exe = m["executable"]
+    out = "\n".join(text)
     if rc != 0:
         return None, out
-    return os.path.join(C.HARNESS, "target", "debug", BIN), out
+    if exe is None or not os.path.isfile(exe):
+        return None, "cargo build succeeded but reported no executable for %s of %s\n%s" % (BIN, manifest, out)
+    C.log("harness executable %s (built against %s)" % (exe, C.REPO))
+    return exe, out
 
 
 def run_harness(exe, path):
@@ -782,7 +897,7 @@ def custom_main(args, tier, seed):
         S, R, MS, MR = run_all(exe, cases, tier, with_model=model_ok)
         for cid, c in cases:
             if model_ok:
-                if strip_probe(S.get(cid)) != MS.get(cid):
+                if strip_probe(S.get(cid), c[0] if c else None) != MS.get(cid):
                     dis_a.append((cid, c))
                 if R.get(cid) != MR.get(cid):
                     dis_b.append((cid, c))
